@@ -425,12 +425,12 @@ def main(tier, seed):
                     n_cli += via == "cli"
                     o = dict(fixed=fixed, ign=ign, big=unmarked, via=via)
                     if unmarked:
-                        o["lcd_timeout"] = 2  # 345 lines analysed as a whole: keep the LCD search short
+                        o["lcd_timeout"] = 30  # 345 lines analysed as a whole (completes in ~1 s; bounded in case it does not)
                     add("file", rel, isa, arch, **o)
         if defaults[isa] not in empty and (not quick or rnd.random() < 0.5):
             o = dict(fixed=rnd.random() < 0.5, ign=rnd.random() < 0.5, big=unmarked)
             if unmarked:
-                o["lcd_timeout"] = 2
+                o["lcd_timeout"] = 30
             add("file", rel, isa, None, **o)
     # the heavy time-out witness among the shipped files (thorough only)
     if not quick:
